@@ -178,6 +178,8 @@ def run(rep, tier):
         rep.ob('R-FWD', 'default;nonforwarder;%s' % fn['id'], False, 'reference form is not a pure forwarder (%s)' % why)
     fwd.run_assign(rep, db, ['core::ops::arith::MulAssign'])
     rep.floor('R-FWD', 110)
+    from . import deps
+    deps.run(rep, tier, ('R', 'W-muldiv'))      # proofs of the summaries this check relies on
     rep.explanation = ('Per scale pair (all 361) the MIR of Mul / CheckedMul is interpreted with symbolic coefficients; each path is classified by the facts it established '
                        '(operand zero, operand equal to one, general) and the result is compared with the oracle of Appendix A.3: exact product term x*y at scale p+q, the '
                        'short-cut results, or the term Rnd[thread](x*y / 10^(p+q-18)) at scale 18 (cross-multiplied rationals); failures only as overflow of x*y resp. of the '
